@@ -64,7 +64,7 @@ impl Scenario for C13 {
         vec![
             "reference sorted-list model (sim/src/models/timing.rs) is the trusted base; 'active at its time' is read narrowly (latest point not after it; difficulty/effect compare with the default when there is none; a sample point with no earlier point is never redundant)".into(),
             "&mut makes every operation atomic, so the schedule is exactly the operation order (weak fit: no I/O fault applies)".into(),
-            "-0.0 and NaN times are excluded (total_cmp orders -0.0 before 0.0; outside the stated alphabet)".into(),
+            "-0.0 times are excluded (total_cmp orders -0.0 before 0.0; outside the stated alphabet). NaN-time adds are injected rarely as a hostile operation with a deliberately narrow oracle: the finite-time points and all lookups at finite times must be exactly what they would be without that add".into(),
         ]
     }
     fn components(&self) -> J {
@@ -106,16 +106,18 @@ impl Scenario for C13 {
                 0 | 1 => *rng.pick(&ALPHA_TIMES),
                 2 => ((rng.unit() - 0.3) * 10.0 * 8.0).round() / 8.0,
                 3 => (rng.unit() - 0.3) * 10.0,
-                4 => *rng.pick(&[0.5, 1.5, -0.5, 1e9, -1e9, 1e-9, 100.0, 1.0000000000000002]),
+                4 => *rng.pick(&[0.5, 1.5, -0.5, 1e9, -1e9, 1e-9, 100.0, 1.0000000000000002, 0.5000000000000001, 0.25, 0.25000000000000006, 0.49999999999999994, 1e-17, 2e-16]),
                 _ => rng.range(-3, 6) as f64,
             }
         };
         let gen_op = |rng: &mut Rng, t: f64| -> Op {
+            // rarely: a NaN time (positive NaN) — it equals no stored time, so it must not disturb any finite point
+            let t = if rng.chance(1, 60) { f64::NAN } else { t };
             match rng.below(4) {
                 0 => Op::new("add_t", &[t, *rng.pick(&[500.0, 300.0, 5.0, 1e6]), rng.below(2) as f64]),
-                1 => Op::new("add_d", &[t, *rng.pick(&[1.0, 2.0, 0.5, 1.0]), if rng.chance(1, 6) { 0.0 } else { 1.0 }]),
-                2 => Op::new("add_e", &[t, rng.below(2) as f64, *rng.pick(&[1.0, 1.0, 2.0])]),
-                _ => Op::new("add_s", &[t, rng.below(4) as f64, *rng.pick(&[100.0, 50.0, 100.0]), rng.below(2) as f64]),
+                1 => Op::new("add_d", &[t, *rng.pick(&[1.0, 2.0, 0.5, 1.0, 0.0, 0.25, 0.25000000000000017]), if rng.chance(1, 6) { 0.0 } else { 1.0 }]),
+                2 => Op::new("add_e", &[t, rng.below(2) as f64, *rng.pick(&[1.0, 1.0, 2.0, 0.0, 0.25, 0.25000000000000017])]),
+                _ => Op::new("add_s", &[t, rng.below(4) as f64, *rng.pick(&[100.0, 50.0, 100.0, 120.0, -5.0]), rng.below(2) as f64]),
             }
         };
         let mut scripts: Vec<Vec<Op>> = Vec::new();
@@ -152,8 +154,27 @@ impl Scenario for C13 {
                 prev = Some(k);
             }
             let t = op.arg(0);
-            if t.is_nan() || (t == 0.0 && t.is_sign_negative()) {
+            if t == 0.0 && t.is_sign_negative() {
                 continue; // outside the alphabet (minimiser may produce it)
+            }
+            if t.is_nan() {
+                // hostile operation: a point whose time equals no time. It is applied to the real collection only; the
+                // oracle afterwards looks at the finite-time points, which it must not have disturbed.
+                let t = f64::NAN; // positive NaN
+                st.inc("probe.add-with-NaN-time");
+                match op.k.as_str() {
+                    "add_t" => cp.add(TimingPoint { time: t, beat_len: op.arg(1), omit_first_bar_line: false, time_signature: TimeSignature::new_simple_quadruple() }),
+                    "add_d" => cp.add(DifficultyPoint { time: t, slider_velocity: op.arg(1), generate_ticks: op.arg(2) != 0.0 }),
+                    "add_e" => cp.add(EffectPoint { time: t, kiai: op.arg(1) != 0.0, scroll_speed: op.arg(2) }),
+                    "add_s" => cp.add(SamplePoint { time: t, sample_bank: bank(op.iarg(1)), sample_volume: op.iarg(2) as i32, custom_sample_bank: op.iarg(3) as i32 }),
+                    _ => {}
+                }
+                // narrow oracle for the hostile op: the finite-time points are untouched (lists and lookups are judged on
+                // the collection with the NaN-time points filtered out; where a NaN-time point itself may sit, or be
+                // returned by a fall-back lookup, is not fixed by the property)
+                check_lists(&finite(&cp), &m, i, op)?;
+                check_lookups(&finite(&cp), &m, i, st)?;
+                continue;
             }
             st.inc("steps.ops_applied");
             let before = m.clone();
@@ -188,8 +209,8 @@ impl Scenario for C13 {
             } else {
                 st.inc("probe.add-inserted");
             }
-            check_lists(&cp, &m, i, op)?;
-            check_lookups(&cp, &m, i, st)?;
+            check_lists(&finite(&cp), &m, i, op)?;
+            check_lookups(&finite(&cp), &m, i, st)?;
         }
         let mut h = Fnv::new();
         use std::fmt::Write as _;
@@ -201,8 +222,18 @@ impl Scenario for C13 {
         plan.ops.len() >= 2
     }
     fn reach_probes(&self) -> Vec<&'static str> {
-        vec!["probe.redundant-add-dropped", "probe.add-replaced-point-at-same-time", "probe.add-inserted", "probe.lookup-before-first-point", "probe.lookup-between-points", "probe.lookup-beyond-last-point", "probe.lookup-exactly-at-point"]
+        vec!["probe.redundant-add-dropped", "probe.add-replaced-point-at-same-time", "probe.add-inserted", "probe.lookup-before-first-point", "probe.lookup-between-points", "probe.lookup-beyond-last-point", "probe.lookup-exactly-at-point", "probe.add-with-NaN-time"]
     }
+}
+
+/// The collection without points whose time is NaN (only present after a hostile NaN-time add).
+fn finite(cp: &ControlPoints) -> ControlPoints {
+    let mut c = cp.clone();
+    c.timing_points.retain(|p| !p.time.is_nan());
+    c.difficulty_points.retain(|p| !p.time.is_nan());
+    c.effect_points.retain(|p| !p.time.is_nan());
+    c.sample_points.retain(|p| !p.time.is_nan());
+    c
 }
 
 fn check_lists(cp: &ControlPoints, m: &MC, i: usize, op: &Op) -> Result<(), Violation> {
